@@ -289,6 +289,43 @@ Theorem C20_to_fd_at_exact : forall sched old pos ser,
 Proof. exact to_fd_at_exact. Qed.
 Print Assumptions C20_to_fd_at_exact.
 
+(* ---- any descriptor number is a descriptor: the number is an argument nothing depends on; -1 is
+   the only failure value of open() (0, 1, 2 are what a process without standard descriptors gets) ---- *)
+
+Theorem C20_fd_number_irrelevant : forall fd1 fd2,
+  object_from_fd_ex_on fd1 = object_from_fd_ex_on fd2 /\ object_to_fd_on fd1 = object_to_fd_on fd2.
+Proof. exact fd_number_irrelevant. Qed.
+Print Assumptions C20_fd_number_irrelevant.
+
+Theorem C20_from_file_any_descriptor : forall ret parse app_ok sched data,
+  0 <= ret ->
+  exists r closed, object_from_file_ret ret parse app_ok sched data = (r, 1, closed)
+    /\ object_from_file true parse app_ok sched data = (r, 1, zlen closed)
+    /\ (closed = [ret] \/ (closed = [] /\ exists pb c, r = ROutOfSchedule pb c)).
+Proof. exact from_file_any_descriptor. Qed.
+Print Assumptions C20_from_file_any_descriptor.
+
+Theorem C20_to_file_any_descriptor : forall ret sched ser,
+  0 <= ret ->
+  exists r closed, object_to_file_ext_ret ret sched false ser = (r, 1, closed)
+    /\ r = object_to_fd sched false ser
+    /\ (forall rc m d c, r = WRet rc m d c -> closed = [ret]).
+Proof. exact to_file_any_descriptor. Qed.
+Print Assumptions C20_to_file_any_descriptor.
+
+Theorem C20_open_minus_one_is_the_failure : forall parse app_ok sched data ser,
+  object_from_file_ret (-1) parse app_ok sched data = (RRet (mkrout JNull MOpen 0 None 0), 1, [])
+  /\ object_to_file_ext_ret (-1) sched false ser = (WRet (-1) true [] 0, 1, []).
+Proof. exact open_minus_one_is_the_failure. Qed.
+Print Assumptions C20_open_minus_one_is_the_failure.
+
+Theorem C20_file_results_independent_of_descriptor : forall n m parse app_ok sched data ser,
+  0 <= n -> 0 <= m ->
+  fst (fst (object_from_file_ret n parse app_ok sched data)) = fst (fst (object_from_file_ret m parse app_ok sched data))
+  /\ fst (fst (object_to_file_ext_ret n sched false ser)) = fst (fst (object_to_file_ext_ret m sched false ser)).
+Proof. exact file_results_independent_of_descriptor. Qed.
+Print Assumptions C20_file_results_independent_of_descriptor.
+
 (* ---- non-vacuity ---- *)
 
 Theorem C20_write_nonvacuous :
@@ -368,3 +405,12 @@ Theorem C20_position_nonvacuous :
   /\ object_to_fd_at [Short 1; Short 9] [49;50;51;52;53;54] 2 true false (Some [91;93]) =
     (WRet 0 false [91;93] 2, [49;50;51;52;53;54;91;93], 8).
 Proof. exact position_nonvacuous. Qed.
+
+Theorem C20_descriptor_zero_nonvacuous :
+  object_from_file_ret 0 show_parse (fun _ _ => true) [Short 9; Short 9] [91;49;93] =
+    (RRet (mkrout (JArr [JInt 32; JStr [91;49;93]]) MNone 2 (Some (32, [91;49;93], 1)) 0), 1, [0])
+  /\ object_to_file_ext_ret 0 [Short 9] false (Some [91;49;93]) = (WRet 0 false [91;49;93] 1, 1, [0])
+  /\ object_to_file_ext_ret 2147483647 [Short 1; Err 5] false (Some [91;49;93]) = (WRet (-1) true [91] 2, 1, [2147483647])
+  /\ object_from_file_ret (-1) show_parse (fun _ _ => true) [Short 9; Short 9] [91;49;93] =
+    (RRet (mkrout JNull MOpen 0 None 0), 1, []).
+Proof. exact descriptor_zero_nonvacuous. Qed.
